@@ -627,6 +627,219 @@ CHECKERS = {
 }
 
 
+
+# --------------------------------------------------------------------------
+# 8. complement / rc / to_rna / get_translation on sequence VIEWS
+# --------------------------------------------------------------------------
+def _apply_view_str(d, op, rna):
+    k = op[0]
+    if k in ("rc", "neg"):
+        return _o_comp(d, rna)[::-1]
+    if k == "complement":
+        return _o_comp(d, rna)
+    if k == "slice":
+        return d[op[1] : op[2]]
+    if k == "stride":
+        return d[:: op[1]]
+    if k == "negstride":
+        return _o_comp(d[:: -op[1]], rna)
+    raise ValueError(k)
+
+
+def _apply_view_real(v, op):
+    k = op[0]
+    if k == "rc":
+        return v.rc()
+    if k == "neg":
+        return v[::-1]
+    if k == "complement":
+        return v.complement()
+    if k == "slice":
+        return v[op[1] : op[2]]
+    if k == "stride":
+        return v[:: op[1]]
+    if k == "negstride":
+        return v[:: -op[1]]
+    raise ValueError(k)
+
+
+def _view_source(impl, source, s, mt):
+    """returns (sequence object, displayed string) for a sequence taken directly or out of a collection / alignment"""
+    import cogent3
+
+    other = ("ACGU" if mt == "rna" else "ACGT") * ((len(s) + 3) // 4)
+    d = {"a": s, "b": other[: len(s)]}
+    if source == "direct":
+        return _mk_seq(impl, s, mt), s
+    if impl == "old":
+        if source == "coll.get_seq":
+            return cogent3.make_unaligned_seqs(d, moltype=mt).get_seq("a"), s
+        if source == "coll.rc.get_seq":
+            return cogent3.make_unaligned_seqs(d, moltype=mt).rc().get_seq("a"), _o_comp(s, mt == "rna")[::-1]
+        arr = source.startswith("arrayaln")
+        aln = cogent3.make_aligned_seqs(d, moltype=mt, array_align=arr)
+        what = source.split(".", 1)[1]
+        if what == "get_gapped_seq":
+            return aln.get_gapped_seq("a"), s
+        if what == "rc.get_gapped_seq":
+            return aln.rc().get_gapped_seq("a"), _o_comp(s, mt == "rna")[::-1]
+        if what == "get_seq":
+            return aln.get_seq("a"), s.replace("-", "").replace("?", "") if not arr else s
+    else:
+        from cogent3.core import new_alignment
+
+        c = new_alignment.make_unaligned_seqs(d, moltype=mt)
+        if source == "coll.seqs":
+            return c.seqs["a"], s
+        if source == "coll.get_seq":
+            return c.get_seq("a"), s
+        if source == "coll.rc.seqs":
+            return c.rc().seqs["a"], _o_comp(s, mt == "rna")[::-1]
+    raise ValueError(source)
+
+
+OLD_SOURCES = ["direct", "coll.get_seq", "coll.rc.get_seq", "arrayaln.get_gapped_seq", "arrayaln.rc.get_gapped_seq", "aln.get_gapped_seq",
+               "aln.rc.get_gapped_seq", "aln.get_seq"]
+NEW_SOURCES = ["direct", "coll.seqs", "coll.get_seq", "coll.rc.seqs"]
+
+
+def check_seq_view(case, T):
+    impl, mt, s, ops, source, code = case["impl"], case["moltype"], case["s"], case["ops"], case["source"], case.get("code", 1)
+    rna = mt == "rna"
+    built = _call(lambda: _view_source(impl, source, s, mt))
+    if isinstance(built, dict):
+        return dict(what=f"{impl} {source}: obtaining the sequence raised", expected=s, got=built, sig=f"seq.view[{mt}]:{impl}:{source}:construct")
+    v, d = built
+    if str(v) != d:
+        if source == "aln.get_seq" and str(v) == s:
+            d = s
+        else:
+            return dict(what=f"{impl} {source}: the sequence does not display the expected string", expected=d, got=str(v), sig=f"seq.view[{mt}]:{impl}:{source}:str:source")
+    rev = source.count(".rc.") % 2 == 1
+    strided = False
+    for op in ops:
+        try:
+            v = _apply_view_real(v, op)
+        except Exception as e:
+            return dict(what=f"{impl} {source}: view operation {op} raised", expected="a view", got={"err": type(e).__name__}, sig=f"seq.view[{mt}]:{impl}:{source}:{op[0]}:raises")
+        d = _apply_view_str(d, op, rna)
+        if op[0] in ("rc", "neg", "negstride"):
+            rev = not rev
+        if op[0] in ("stride", "negstride") and op[1] > 1:
+            strided = True
+    viewcls = ("reversed" if rev else "forward") + ("+strided" if strided else "") + ("+sliced" if any(o[0] == "slice" for o in ops) else "")
+    comp = _o_comp(d, rna)
+    conv = (lambda x: x.replace("U", "T")) if rna else (lambda x: x.replace("T", "U"))
+    checks = [
+        ("str", lambda: str(v), d),
+        ("complement", lambda: str(v.complement()), comp),
+        ("rc", lambda: str(v.rc()), comp[::-1]),
+        ("reverse_complement", lambda: str(v.reverse_complement()), comp[::-1]),
+        ("rc.rc", lambda: str(v.rc().rc()), d),
+        ("complement.complement", lambda: str(v.complement().complement()), d),
+        ("rc.complement", lambda: str(v.rc().complement()), d[::-1]),
+        ("complement.rc", lambda: str(v.complement().rc()), d[::-1]),
+        ("to_dna" if rna else "to_rna", lambda: str(v.to_dna() if rna else v.to_rna()), conv(d)),
+        ("rc.to_" + ("dna" if rna else "rna"), lambda: str(v.rc().to_dna() if rna else v.rc().to_rna()), conv(comp[::-1])),
+    ]
+    dd = d.replace("U", "T")
+    if dd and set(dd) <= set(BASES):
+        cs = {r[0]: r[2] for r in T["old_codes" if impl == "old" else "new_codes"]}[code]
+        tbl = table(cs)
+        gc = _gcobj(impl, code)
+        want = "".join(tbl[dd[i : i + 3]] for i in range(0, len(dd) - 2, 3))
+        rcd = o_rc(dd)
+        want_rc = "".join(tbl[rcd[i : i + 3]] for i in range(0, len(rcd) - 2, 3))
+        checks.append(("get_translation", lambda: str(v.get_translation(gc=gc, incomplete_ok=True, include_stop=True, trim_stop=False)), want))
+        checks.append(("rc.get_translation", lambda: str(v.rc().get_translation(gc=gc, incomplete_ok=True, include_stop=True, trim_stop=False)), want_rc))
+        checks.append(("complement.rc.get_translation", lambda: str(v.complement().rc().complement().rc().get_translation(gc=gc, incomplete_ok=True, include_stop=True, trim_stop=False)), want))
+    for name, f, want in checks:
+        got = _call(f)
+        if got != want:
+            return dict(what=f"{impl} [{mt}] {source} view {ops}: {name} differs from the same operation on the displayed string {d!r}", expected=want, got=got,
+                        sig=f"seq.view[{mt}]:{impl}:{source}:{name}:{viewcls}")
+    return None
+
+
+
+
+def _differing_codons(T):
+    """(code id, codon, direction) for every codon whose stop status differs between the code and code 1"""
+    std = table({r[0]: r[2] for r in T["new_codes"]}[1])
+    res = []
+    for r in T["new_codes"]:
+        tbl = table(r[2])
+        for c in codons():
+            if (tbl[c] == "*") != (std[c] == "*"):
+                res.append((r[0], c, "stop-only-in-code" if tbl[c] == "*" else "stop-only-in-standard"))
+    return res
+
+
+def code_specific_cases(rng, budget, T):
+    """collection / alignment / sequence level stop handling for EVERY code, with sequences ending in each codon whose stop
+    status differs from the standard code (both directions), plus one common stop and one sense codon per code"""
+    ids_old = {r[0] for r in T["old_codes"]}
+    cs_of = {r[0]: r[2] for r in T["new_codes"]}
+    std = table(cs_of[1])
+    diff = _differing_codons(T)
+    per_code = {}
+    for code, c, _ in diff:
+        per_code.setdefault(code, []).append(c)
+    for code in sorted(cs_of):
+        tbl = table(cs_of[code])
+        common = [c for c in codons() if tbl[c] == "*" and std[c] == "*"]
+        extra = ([rng.choice(common)] if common else []) + ["CCC"]
+        for c in per_code.get(code, []) + (extra if code != 1 else extra + ["TGA", "TAA", "TAG"]):
+            sense = [x for x in codons() if tbl[x] != "*" and std[x] != "*"]
+            body = "".join(rng.choice(sense) for _ in range(2))
+            body2 = "".join(rng.choice(sense) for _ in range(2))
+            seqsets = [[body + c, body2 + rng.choice(sense)], [body + c, body2 + c]]
+            if common:
+                seqsets.append([body + c, body2 + common[0]])
+            for seqs in seqsets[: 2 + (budget > 1)]:
+                entries = ["new.SequenceCollection"] + (["old.SequenceCollection", "old.ArrayAlignment", "old.Alignment", "app.translate_seqs"] if code in ids_old else [])
+                for entry in entries:
+                    for io, is_, ts in ((False, False, True), (True, False, True), (False, True, False), (False, False, False), (False, True, True)):
+                        if entry == "app.translate_seqs" and (io or is_):
+                            continue
+                        yield dict(kind="coll.get_translation", entry=entry, code=code, seqs=seqs, incomplete_ok=io, include_stop=is_, trim_stop=ts,
+                                   moltype="rna" if rng.random() < 0.15 else "dna")
+                    if entry != "app.translate_seqs":
+                        yield dict(kind="coll.trim_stop_codons", entry=entry, code=code, seqs=seqs, strict=rng.random() < 0.5, moltype="dna")
+                for impl in ("old", "new") if code in ids_old else ("new",):
+                    yield dict(kind="seq.get_translation", impl=impl, code=code, s=seqs[0], incomplete_ok=False, include_stop=False, trim_stop=True, moltype="dna", via_rc=False)
+                    yield dict(kind="seq.stop_api", impl=impl, code=code, s=seqs[0], strict=False, moltype="dna")
+
+
+def view_cases(rng, budget, T):
+    ids = [r[0] for r in T["old_codes"] if r[0] in {x[0] for x in T["new_codes"]}]
+    for impl, sources in (("old", OLD_SOURCES), ("new", NEW_SOURCES)):
+        for mt in ("dna", "rna"):
+            u = "U" if mt == "rna" else "T"
+            base = "ACG" + u
+            for source in sources:
+                for _ in range(6 * budget):
+                    n = rng.randint(4, 24)
+                    r = rng.random()
+                    alpha = base if r < 0.55 else base * 3 + "RYWSKMBDHVN" if r < 0.8 else base * 3 + "-N"
+                    if "-" in alpha and source in ("coll.get_seq", "coll.rc.get_seq", "coll.seqs", "coll.rc.seqs", "direct") and rng.random() < 0.5:
+                        alpha = base
+                    s = "".join(rng.choice(alpha) for _ in range(n))
+                    a = rng.randint(0, n // 2)
+                    b = rng.randint(a + 1, n)
+                    paths = [
+                        [], [["rc"]], [["neg"]], [["slice", a, b]], [["rc"], ["slice", a, b]], [["slice", a, b], ["rc"]], [["stride", 2]], [["negstride", 2]],
+                        [["rc"], ["rc"]], [["complement"]], [["rc"], ["complement"]], [["slice", a, b], ["neg"], ["slice", 0, max(1, (b - a) // 2)]],
+                        [["stride", 3], ["rc"]], [["negstride", 1], ["slice", a, b]],
+                    ]
+                    yield dict(kind="seq.view_ops", impl=impl, moltype=mt, s=s, ops=rng.choice(paths), source=source, code=rng.choice(ids))
+                # always: the plain rc view of a short canonical and of an ambiguous sequence
+                for s in ("AACGG" + u + "A", "ARC-GN" + u):
+                    yield dict(kind="seq.view_ops", impl=impl, moltype=mt, s=s, ops=[["rc"]], source=source, code=1)
+
+CHECKERS["seq.view_ops"] = check_seq_view
+
+
 # --------------------------------------------------------------------------
 # generators
 # --------------------------------------------------------------------------
@@ -660,6 +873,8 @@ def _gapped_seq(rng, tbl, ncod, kinds):
 
 
 def cases(rng, budget, T):
+    yield from code_specific_cases(rng, budget, T)
+    yield from view_cases(rng, budget, T)
     ids_new = [r[0] for r in T["new_codes"]]
     ids_old = [r[0] for r in T["old_codes"]]
     both = [i for i in ids_new if i in ids_old]
